@@ -14,6 +14,18 @@ func (v *Verifier) name(s *State, hint string, t *Term) *Term {
 	if t.IsLit || t.Size() <= 24 {
 		return t
 	}
+	if t.Op == "mk-slice" || t.Op == "mk-iface" {
+		// keep the constructor visible; name only large components
+		args := make([]*Term, len(t.Args))
+		for i, a := range t.Args {
+			if a.Size() > 40 {
+				args[i] = v.name(s, hint, a)
+			} else {
+				args[i] = a
+			}
+		}
+		return mk(t.Op, t.Sort, args...)
+	}
 	c := v.fresh(hint, t.Sort)
 	s.assume(Eq(c, t))
 	return c
@@ -125,7 +137,7 @@ func (v *Verifier) assign(s *State, e ast.Expr, val *Term) {
 			v.oblige(s, "nopanic", "index", And(Le(IntLit(0), i), Lt(i, IntLit(at.Len()))), x.Pos(), "array index in range")
 			s.assume(And(Le(IntLit(0), i), Lt(i, IntLit(at.Len()))))
 			name, h, _ := v.sliceHeap(s, at.Elem())
-			s.heaps[name] = Store(h, p, Store(Select(h, p), i, val))
+			s.heaps[name] = Store(h, p, Store(v.hsel(s, h, p), i, val))
 		case *types.Map:
 			m := v.eval(s, x.X)
 			k := v.eval(s, x.Index)
@@ -617,13 +629,13 @@ func (v *Verifier) execTypeSwitch(s *State, x *ast.TypeSwitchStmt) []*Flow {
 // ---------------- loops ----------------
 
 type loopSpec struct {
-	ord      int
-	invs     []*Clause
-	dec      *Clause
-	unroll   int
-	unfolds  []*Clause
-	uses     []*Clause
-	assumes  []*Clause
+	ord     int
+	invs    []*Clause
+	dec     *Clause
+	unroll  int
+	unfolds []*Clause
+	uses    []*Clause
+	assumes []*Clause
 }
 
 func (v *Verifier) loopSpecFor(n ast.Node) *loopSpec {
@@ -663,15 +675,15 @@ func (v *Verifier) loopSpecFor(n ast.Node) *loopSpec {
 
 // loopParts is the normalised form: cond may be nil (true).
 type loopParts struct {
-	node  ast.Node
-	cond  func(s *State) *Term
-	body  *ast.BlockStmt
-	pre   func(s *State) // executed at the start of each iteration (range var binding)
-	post  func(s *State) []*Flow
-	label string
-	scope *types.Scope
+	node     ast.Node
+	cond     func(s *State) *Term
+	body     *ast.BlockStmt
+	pre      func(s *State) // executed at the start of each iteration (range var binding)
+	post     func(s *State) []*Flow
+	label    string
+	scope    *types.Scope
 	extraMod []types.Object
-	hidden map[string]*types.Var
+	hidden   map[string]*types.Var
 }
 
 func (v *Verifier) execFor(s *State, x *ast.ForStmt, label string) []*Flow {
@@ -725,7 +737,7 @@ func (v *Verifier) execRange(s *State, x *ast.RangeStmt, label string) []*Flow {
 			v.nonNil(s, p, xt, x.Pos())
 			elemAt = func(st *State, i *Term) *Term {
 				_, h, _ := v.sliceHeap(st, at.Elem())
-				return Select(Select(h, p), i)
+				return Select(v.hsel(st, h, p), i)
 			}
 		}
 	case *types.Slice:
@@ -975,7 +987,7 @@ func (v *Verifier) execUnrolled(s *State, lp *loopParts, ls *loopSpec) []*Flow {
 type loopModSet struct {
 	vars     map[*types.Var]bool
 	heapAll  bool
-	heapKind map[string]bool      // heap names havocked entirely
+	heapKind map[string]bool       // heap names havocked entirely
 	bases    map[string][]ast.Expr // heap name -> expressions whose base is written
 	globals  bool
 }
@@ -1307,7 +1319,8 @@ func (v *Verifier) havocAll(s *State) {
 	for name, cur := range s.heaps {
 		s.heaps[name] = v.fresh(name, cur.Sort)
 	}
-	na := v.fresh("alloc", SInt)
-	s.assume(Ge(na, s.alloc))
-	s.alloc = na
+	for name := range s.ghost {
+		s.ghost[name] = v.fresh("ghost."+name, SInt)
+	}
+	v.bumpAlloc(s)
 }
